@@ -121,6 +121,14 @@ Proof.
   intros. rewrite x_copy_bytes_uspace_ok. apply (reads_fit_mono nbytes); [unfold x_copy_bytes_uspace_buf_len; lia|].
   apply copy_bytes_uspace_reads_fit.
 Qed.
+Theorem x_range_buffer_holds_every_write : forall fuel nbytes off ans,
+  uans_bounded (u_trace (x_copy_range_uspace fuel nbytes off ans)) ->
+  writes_fit (x_copy_range_uspace_buf_len nbytes off) (u_trace (x_copy_range_uspace fuel nbytes off ans)).
+Proof.
+  intros fuel nbytes off ans. rewrite x_copy_range_uspace_ok. intros Hb.
+  apply (writes_fit_mono nbytes); [unfold x_copy_range_uspace_buf_len; lia|].
+  apply copy_range_uspace_writes_fit. exact Hb.
+Qed.
 Theorem x_uspace_buffer_slices :
   x_copy_range_uspace_buf_slices = ["next"; "rlen"]%string /\ x_copy_bytes_uspace_buf_slices = ["next"; "len"]%string.
 Proof. split; reflexivity. Qed.
